@@ -456,6 +456,8 @@ class Interp:
             if ch and ch[-1] == "vertices":
                 return Val(1, ("L", Val(1, P(ONE)), au.src(e)))
             v = self.ev(e.value)
+            if e.attr == "_data":
+                return v            # raw storage of a container: the same elements
             if e.attr in ("x", "y", "z", "real", "imag"):
                 a = None
                 if v.a is not None and v.a[0] == "V2" and e.attr in ("x", "y"):
